@@ -115,6 +115,8 @@ func doAction(s *netsim.Session, l string) {
 			}
 			return nil
 		}, func(ctx2 ctxT) {})
+	case "!cancel-block1":
+		s.Node.CancelBlockRequest(s.Ctx, *netsim.Block1.BlockHash())
 	case "!request-headers":
 		s.Node.RequestHeaders(s.Ctx)
 	}
@@ -243,6 +245,9 @@ func main() {
 	}
 	if *prop == "C15" {
 		os.Exit(runC15(*tier))
+	}
+	if *prop == "C06" {
+		os.Exit(runC06Wire(*prop, *tier))
 	}
 	if *prop == "C19" {
 		os.Exit(runWireLocator(*prop, *tier))
